@@ -39,6 +39,10 @@ func TestMain(m *testing.M) {
 // KnownNonLast is the id of the known finding: DeleteEntriesFromRepo shrinking a non-last index file
 const KnownNonLast = "C09-delete-files-nonlast-index-unreadable"
 
+// KnownLeftover is the id of the known finding: DeleteRepo / RenameRepo leave the file lists of
+// interrupted uploads (no bundle.yaml) behind under the old name
+const KnownLeftover = "C09-delete-repo-keeps-interrupted-upload-file-lists"
+
 // ---------------------------------------------------------------------------------------------
 // case description
 
@@ -60,7 +64,12 @@ type repoSpec struct {
 	Name    string       `json:"name"`
 	Bundles []bundleSpec `json:"bundles"`
 	Labels  []labelSpec  `json:"labels"`
+	// Leftover: the repository also holds the first file list of an upload that was interrupted
+	// before its bundle.yaml was written (put there by the harness, as the dead uploader would have)
+	Leftover bool `json:"leftover,omitempty"`
 }
+
+func leftoverID(ri int) string { return hx.KSUID(7, uint64(500+ri)) }
 
 // selT selects paths for delete-files; resolved against the state at the time of the operation
 type selT struct {
@@ -168,6 +177,11 @@ func drawCase(t *rapid.T) caseT {
 				seen[ln] = true
 				r.Labels = append(r.Labels, labelSpec{Name: ln, Bundle: rapid.IntRange(0, nb-1).Draw(t, "labelbundle")})
 			}
+		}
+		r.Leftover = pick(t, "leftover", 5) == 0
+		if r.Leftover && hx.Known(KnownLeftover) {
+			r.Leftover = false
+			stats.Count("excluded_"+KnownLeftover, 1)
 		}
 		c.Repos = append(c.Repos, r)
 	}
@@ -447,6 +461,7 @@ type caseInfo struct {
 	SharedIDs bool
 	MultiIdx  bool
 	SharedBlb bool
+	Leftover  bool
 }
 
 func relation(target string, m modelT) string {
@@ -494,7 +509,7 @@ func (r *runner) setup() error {
 	c := r.c
 	blobUse := map[string]int{}
 	idUse := map[string]int{}
-	for _, rs := range c.Repos {
+	for ri, rs := range c.Repos {
 		if err := hx.CreateRepo(r.stores, rs.Name); err != nil {
 			return fmt.Errorf("setup: create repo %q: %v", rs.Name, err)
 		}
@@ -546,6 +561,14 @@ func (r *runner) setup() error {
 			if len(mb.files) != len(tree) {
 				return fmt.Errorf("setup: upload of %s/%s stored %d entries for %d files", rs.Name, id, len(mb.files), len(tree))
 			}
+		}
+		if rs.Leftover {
+			data, err := yaml.Marshal(model.BundleEntries{BundleEntries: []model.BundleEntry{{Hash: strings.Repeat("0", 128), NameWithPath: "never/committed", Size: 1}}})
+			if err != nil {
+				return fmt.Errorf("harness: %v", err)
+			}
+			r.env.Meta.RawPut(bundlePrefix(rs.Name, leftoverID(ri))+"bundle-files-0.yaml", data)
+			r.info.Leftover = true
 		}
 		for _, ls := range rs.Labels {
 			id := rs.Bundles[ls.Bundle].id()
@@ -673,6 +696,7 @@ func (r *runner) runOp(op opSpec) error {
 	wantRemoved := map[string]bool{}
 	wantAdded := map[string]bool{}
 	mayChange := map[string]bool{}
+	mayAdd := map[string]bool{}
 	ownedBy := func(repo string) []string {
 		var ks []string
 		for _, mp := range []map[string][]byte{before.meta, before.vmeta} {
@@ -714,6 +738,12 @@ func (r *runner) runOp(op opSpec) error {
 		if expectOK {
 			for _, k := range ownedBy(op.Repo) {
 				wantRemoved[k] = true
+				if isFileList(k) && before.meta[k[:strings.LastIndexByte(k, '/')+1]+"bundle.yaml"] == nil {
+					// what an interrupted upload left behind is not a bundle: it must leave the old name,
+					// whether it is carried over to the new one is not specified
+					mayAdd[swapRepo(k, op.Repo, op.New)] = true
+					continue
+				}
 				wantAdded[swapRepo(k, op.Repo, op.New)] = true
 			}
 			m[op.New] = target
@@ -866,7 +896,13 @@ func (r *runner) runOp(op opSpec) error {
 	if s := sameSet(removed, wantRemoved); s != "" {
 		return fmt.Errorf("%s: objects removed from the metadata stores differ from the expected set: %s", what, s)
 	}
-	if s := sameSet(added, wantAdded); s != "" {
+	strict := added[:0:0]
+	for _, k := range added {
+		if !mayAdd[k] {
+			strict = append(strict, k)
+		}
+	}
+	if s := sameSet(strict, wantAdded); s != "" {
 		return fmt.Errorf("%s: objects added to the metadata stores differ from the expected set: %s", what, s)
 	}
 	for _, k := range changed {
@@ -1119,11 +1155,14 @@ func record(c caseT, info caseInfo) {
 	if info.MultiIdx {
 		stats.Count("multi_index_bundle", 1)
 	}
+	if info.Leftover {
+		stats.Count("leftover_file_list", 1)
+	}
 	if c.CRC {
 		stats.Count("crc_store", 1)
 	}
 	stats.Count(fmt.Sprintf("nops_%d", len(info.Ops)), 1)
-	sig := fmt.Sprintf("%s | multi=%v crc=%v", strings.Join(sigs, " ; "), info.MultiIdx, c.CRC)
+	sig := fmt.Sprintf("%s | multi=%v crc=%v leftover=%v", strings.Join(sigs, " ; "), info.MultiIdx, c.CRC, info.Leftover)
 	stats.Case(sig, nt, func() interface{} { return map[string]interface{}{"case": c, "ops": info.Ops} })
 }
 
